@@ -94,6 +94,7 @@ package clip
 
 //@ func LineString(b, ls, opts)
 //@   requires forall k :: 0 <= k && k < len(opts) ==> opts[k] != nil
+//@   return 1: len(result) == 0
 //@   ensures result == nil <==> len(result) == 0
 // without options (closed box): a line whose last vertex is in the box is never clipped away
 //@   ensures len(opts) == 0 && len(ls) >= 2 && bitCode(b, ls[len(ls)-1]) == 0 ==> len(result) >= 1 && same(result[len(result)-1][len(result[len(result)-1])-1], ls[len(ls)-1])
